@@ -57,7 +57,59 @@ def client_fns(prog, roles):
     reach = prog.reachable_fns([roles.run_on.path])
     extra = [b.path for b in prog.fns() if re.search(r"^<params::|^params::|value::decode::Value(Inner)?::<'a>::parse_from|^<tls::|^tls::", b.path)]
     out = set(reach) | set(extra)
-    return {x for x in out if not re.search(r"^resultset::|^writers::|value::encode|^<resultset::|::tests::|as std::fmt::Debug|as std::clone::Clone|^MysqlShim::", x)}
+    return {x for x in out if not re.search(r"^resultset::|value::encode|^<resultset::|::tests::|as std::fmt::Debug|as std::clone::Clone|^MysqlShim::", x)}
+
+
+def _unit_counter(body, op):
+    """is the operand a local whose every definition is a small constant or `itself + 1`?"""
+    from engines.prog import op_place
+    pl = op_place(op)
+    if pl is None or pl["p"]:
+        return False
+    l = pl["l"]
+    if l <= body.raw["arg_count"]:
+        return False
+    ndefs = 0
+    for bb_, i_, s_ in body.stmts():
+        if s_["k"] != "assign" or s_["lhs"]["l"] != l:
+            continue
+        if s_["lhs"]["p"]:
+            return False
+        ndefs += 1
+        rv = s_["rv"]
+        if rv["k"] != "use":
+            return False
+        o = rv["op"]
+        if "const" in o:
+            try:
+                if 0 <= int(o["const"].get("int", "x")) < (1 << 32):
+                    continue
+            except ValueError:
+                pass
+            return False
+        q = op_place(o)
+        if q is None or len(q["p"]) != 1 or not (isinstance(q["p"][0], dict) and q["p"][0].get("f") == 0):
+            return False
+        # the tuple local must be `AddWithOverflow(copy l, const 1)`
+        okk = False
+        for _, _, s2 in body.stmts():
+            if s2["k"] == "assign" and s2["lhs"]["l"] == q["l"] and not s2["lhs"]["p"]:
+                r2 = s2["rv"]
+                a_, b_ = op_place(r2.get("a") or {}), (r2.get("b") or {})
+                okk = r2["k"] == "bin" and r2["op"] in ("AddWithOverflow", "Add") and a_ is not None and a_["l"] == l and not a_["p"] and \
+                    "const" in b_ and str(b_["const"].get("int")) == "1"
+                if not okk:
+                    return False
+        if not okk:
+            return False
+    # no call may write it through a reference
+    for bb_, i_, s_ in body.stmts():
+        if s_["k"] == "assign" and s_["rv"]["k"] == "ref" and s_["rv"].get("mut") and s_["rv"]["place"]["l"] == l:
+            return False
+    for bb_, t_ in body.calls():
+        if not t_["dest"]["p"] and t_["dest"]["l"] == l:
+            return False
+    return ndefs >= 1
 
 
 def auto_discharge(body, kind, bb, t, prog):
@@ -105,6 +157,8 @@ def auto_discharge(body, kind, bb, t, prog):
                         neg = r_.add(e)   # y - 1 + (other)
                         if T.const_int(b) == 1 and r_.c == -1 and any(v == -1 and Aff(0, {k: 1}) == e for k, v in r_.m.items()):
                             return True, "dominating comparison bounds the operand strictly below another value of the same type"
+            if op == "Add" and ty in ("usize", "u64") and prog.ptr_bits == 64 and T.const_int(b) == 1 and _unit_counter(body, t["ops"][0]):
+                return True, "64-bit counter that starts at a constant and only ever grows by one per step: overflow needs 2^64 steps"
             if op in ("Shl", "Shr") and b is not None:
                 ib = B.interval(b)
                 if ib is not None and rng and 0 <= ib[0] and ib[1] < (rng[1].bit_length() if rng[0] == 0 else rng[1].bit_length() + 1):
@@ -155,10 +209,13 @@ def auto_discharge(body, kind, bb, t, prog):
         if n is not None and n > 0:
             return True, "chunk size is the non-zero constant %d" % n
         return False, None
-    if kind == "slice-op" and cname(t["func"]).endswith("split_at"):
+    if kind == "slice-op" and re.search(r"split_at(_mut)?$", cname(t["func"])):
         B = Bounds(body, bb, prog.ptr_bits)
         recv = body.arg_origin(bb, 0)
         k = body.arg_origin(bb, 1)
+        # the pending write buffer always holds its 4 header bytes (initial vec![0; 4], truncate(4): C04.header-equals-payload evaluates both)
+        if T.const_int(k) is not None and 0 <= T.const_int(k) <= 4 and T.is_field(T.peel(recv, extra_rx=r"(Deref>::deref|DerefMut>::deref_mut|as_mut_slice|as_slice)$"), "to_write"):
+            return True, "split point %d within the 4 header bytes the pending buffer always holds" % T.const_int(k)
         e = B.len_atom(recv).add(B.aff(k), -1)              # len - k >= 0
         if e.is_const() and e.c >= 0:
             return True, "split point within constant length"
